@@ -12226,3 +12226,193 @@ func E11ImageExtentFromSize(c *core.Ctx, r *core.Report) {
 	r.Count("E11.image-extent-from-size", n)
 	r.Floor("E11.image-extent-from-size", 6)
 }
+
+// E11ViewBoxInOneMatrix: the whole viewBox mapping goes into the view that element transforms are composed onto.
+func E11ViewBoxInOneMatrix(c *core.Ctx, r *core.Report) {
+	r.Rule("E11.viewbox-in-one-matrix", "the viewBox maps user units to the viewport by Scale(w/vbw, h/vbh)·Translate(−min-x, −min-y), applied outside every element's own transform. The importer composes `transform` attributes onto the context's view, so in svgParser.init, on the branch with a viewBox, the matrix handed to SetView is built from all four components of the viewBox parameter (through locals if need be). If the origin is put elsewhere (the coordinate view, which DrawPath applies inside the view), it is subtracted inside the element and group transforms: right only for min-x = min-y = 0 or pure translations, and a rectangle under `scale(2)` in a viewBox starting at (50,50) lands off the canvas")
+	p := c.MustPkg("")
+	info := p.TypesInfo
+	fd := core.MustFuncDecl(p, "svgParser.init")
+	r.Func("canvas.svgParser.init")
+	var vb types.Object
+	for _, f := range fd.Type.Params.List {
+		for _, nm := range f.Names {
+			if _, ok := info.TypeOf(f.Type).Underlying().(*types.Array); ok {
+				vb = info.Defs[nm]
+			}
+		}
+	}
+	if vb == nil {
+		panic(core.Infra("svgParser.init: viewBox array parameter not found"))
+	}
+	defs := map[types.Object][]ast.Expr{}
+	ast.Inspect(fd.Body, func(m ast.Node) bool {
+		if as, ok := m.(*ast.AssignStmt); ok && len(as.Lhs) == len(as.Rhs) {
+			for i, l := range as.Lhs {
+				if id, ok := l.(*ast.Ident); ok {
+					defs[core.ObjOf(info, id)] = append(defs[core.ObjOf(info, id)], as.Rhs[i])
+				}
+			}
+		}
+		return true
+	})
+	var comps func(e ast.Expr, seen map[types.Object]bool, out map[int64]bool)
+	comps = func(e ast.Expr, seen map[types.Object]bool, out map[int64]bool) {
+		ast.Inspect(e, func(m ast.Node) bool {
+			switch x := m.(type) {
+			case *ast.IndexExpr:
+				if id, ok := core.Unparen(x.X).(*ast.Ident); ok && core.ObjOf(info, id) == vb {
+					if k, ok := core.ConstInt(info, x.Index); ok {
+						out[k] = true
+					}
+				}
+			case *ast.Ident:
+				o := core.ObjOf(info, x)
+				if o != nil && !seen[o] {
+					seen[o] = true
+					for _, d := range defs[o] {
+						comps(d, seen, out)
+					}
+				}
+			}
+			return true
+		})
+	}
+	n := 0
+	ast.Inspect(fd.Body, func(m ast.Node) bool {
+		call, ok := m.(*ast.CallExpr)
+		if !ok || len(call.Args) != 1 {
+			return true
+		}
+		f := core.CalleeOf(info, call)
+		if f == nil || f.Name() != "SetView" {
+			return true
+		}
+		got := map[int64]bool{}
+		comps(call.Args[0], map[types.Object]bool{}, got)
+		if len(got) == 0 {
+			return true // the branch without a viewBox
+		}
+		n++
+		key := fmt.Sprintf("canvas.svgParser.init|view set from the viewBox #%d", n)
+		var missing []string
+		for k, nm := range []string{"min-x", "min-y", "width", "height"} {
+			if !got[int64(k)] {
+				missing = append(missing, nm)
+			}
+		}
+		if len(missing) == 0 {
+			r.OK("E11.viewbox-in-one-matrix", key, c.Pos(call.Pos()), "")
+		} else {
+			r.Fail("E11.viewbox-in-one-matrix", key, c.Pos(call.Pos()), fmt.Sprintf("the view matrix set for a document with a viewBox does not depend on its %s: whatever carries that part of the mapping instead is not the matrix the element transforms are composed onto, so it is applied inside those transforms — elements under a scale or rotation are displaced whenever the viewBox does not start at the origin", strings.Join(missing, " and ")))
+		}
+		return true
+	})
+	r.Count("E11.viewbox-in-one-matrix", n)
+	r.Floor("E11.viewbox-in-one-matrix", 1)
+}
+
+// E11AngleRangeNormalised: the angle-range predicates reduce their angles by a full normalisation.
+func E11AngleRangeNormalised(c *core.Ctx, r *core.Report) {
+	r.Rule("E11.angle-range-normalised", "angleBetween and angleBetweenExclusive document that their angles may lie outside [0,2π); Path.Bounds hands them raw atan2 results (in [−π, π]) together with start angles in [0,2π) and end angles in (−2π,4π), so differences down to −3π occur. Every angle variable that takes part in the comparison the predicate returns was last assigned from angleNorm(…) (or math.Mod): one conditional ±2π is not a normalisation, and with it the right-most extreme of a large counter-clockwise arc that starts late in the turn is judged off the arc — Bounds no longer contains the arc")
+	p := c.MustPkg("")
+	info := p.TypesInfo
+	n := 0
+	for _, name := range []string{"angleBetween", "angleBetweenExclusive"} {
+		fd := core.MustFuncDecl(p, name)
+		r.Func("canvas." + name)
+		params := map[types.Object]bool{}
+		for _, f := range fd.Type.Params.List {
+			for _, nm := range f.Names {
+				params[info.Defs[nm]] = true
+			}
+		}
+		// last assignment of each float variable
+		last := map[types.Object]ast.Expr{}
+		lastTok := map[types.Object]token.Token{}
+		ast.Inspect(fd.Body, func(m ast.Node) bool {
+			as, ok := m.(*ast.AssignStmt)
+			if !ok {
+				return true
+			}
+			for i, l := range as.Lhs {
+				id, ok := l.(*ast.Ident)
+				if !ok {
+					continue
+				}
+				if len(as.Lhs) == len(as.Rhs) {
+					// the swap `lower, upper = upper, lower` does not change what the values are
+					if rid, ok := core.Unparen(as.Rhs[i]).(*ast.Ident); ok && params[core.ObjOf(info, rid)] && len(as.Lhs) == 2 {
+						continue
+					}
+					last[core.ObjOf(info, id)] = as.Rhs[i]
+					lastTok[core.ObjOf(info, id)] = as.Tok
+				}
+			}
+			return true
+		})
+		// variables in the comparisons that decide the result: conditions of ifs that return, and returned expressions
+		compared := map[types.Object]token.Pos{}
+		collect := func(e ast.Expr) {
+			ast.Inspect(e, func(m ast.Node) bool {
+				if id, ok := m.(*ast.Ident); ok {
+					if o, isVar := core.ObjOf(info, id).(*types.Var); isVar && params[o] || (isVar && last[o] != nil) {
+						if _, seen := compared[o]; !seen {
+							compared[o] = id.Pos()
+						}
+					}
+				}
+				return true
+			})
+		}
+		ast.Inspect(fd.Body, func(m ast.Node) bool {
+			switch x := m.(type) {
+			case *ast.ReturnStmt:
+				for _, res := range x.Results {
+					if _, isIdent := core.Unparen(res).(*ast.Ident); !isIdent {
+						collect(res)
+					}
+				}
+			case *ast.IfStmt:
+				returns := false
+				for _, s := range x.Body.List {
+					if _, ok := s.(*ast.ReturnStmt); ok {
+						returns = true
+					}
+				}
+				if returns {
+					collect(x.Cond)
+				}
+			}
+			return true
+		})
+		var objs []types.Object
+		for o := range compared {
+			objs = append(objs, o)
+		}
+		sort.Slice(objs, func(i, j int) bool { return objs[i].Name() < objs[j].Name() })
+		for _, o := range objs {
+			n++
+			key := fmt.Sprintf("canvas.%s|`%s` is normalised before it is compared", name, o.Name())
+			good := false
+			if rhs := last[o]; rhs != nil && lastTok[o] == token.ASSIGN || rhs != nil && lastTok[o] == token.DEFINE {
+				if call, ok := core.Unparen(rhs).(*ast.CallExpr); ok {
+					if f := core.CalleeOf(info, call); f != nil && (f.Name() == "angleNorm" || (f.Name() == "Mod" && f.Pkg() != nil && f.Pkg().Path() == "math")) {
+						good = true
+					}
+				}
+			}
+			if good {
+				r.OK("E11.angle-range-normalised", key, c.Pos(compared[o]), types.ExprString(last[o]))
+			} else {
+				how := "is compared as it was passed in"
+				if rhs := last[o]; rhs != nil {
+					how = "was last assigned `" + types.ExprString(rhs) + "`"
+				}
+				r.Fail("E11.angle-range-normalised", key, c.Pos(compared[o]), fmt.Sprintf("`%s` %s, not from angleNorm(…): the predicate accepts angles outside [0,2π) and its callers pass differences of more than one turn, for which a single ±2π (or none) leaves the value out of range — an extreme angle that lies on the arc is reported off it", o.Name(), how))
+			}
+		}
+	}
+	r.Count("E11.angle-range-normalised", n)
+	r.Floor("E11.angle-range-normalised", 4)
+}
